@@ -1,5 +1,6 @@
 """C08 — waveforms honour their contract: constants, subsets, reversal, equality, pointwise/total/history-free sampling."""
 import fractions
+import json
 import os
 import warnings
 
@@ -71,7 +72,8 @@ MANIFEST = {
     'design_ref': 'DESIGN.md §5 C08, §4.3, §4.4, Appendix C, D4',
 }
 
-CH = [0, 'A', 'B', 'C', 'D']           # N index -> Python channel id (order preserving w.r.t. _sort_key_for_channels)
+CH = [0, 'A', 'B', 'C', 'D', 't']      # N index -> Python channel id (order preserving w.r.t. _sort_key_for_channels);
+                                       # 't' (index 5) is named like the time variable of time dependent transformations
 INTERP = {'h': 'Hold', 'l': 'Linear', 'j': 'Jump'}
 FUNCTOR = {'neg': 'FNeg', 'pos': 'FPos', 'abs': 'FAbs'}
 Q4 = F(1, 4)
@@ -124,8 +126,18 @@ def _tm(x):
     return TimeType.from_fraction(q.numerator, q.denominator)
 
 
-def py_build(r):
-    """Build the real waveform object a recipe describes (fresh objects on every call)."""
+def py_build(r, memo=None):
+    """Build the real waveform object a recipe describes (fresh objects on every call).  With a `memo` dict equal
+    sub-recipes become THE SAME object (the same waveform nested twice / used on both sides of an operator)."""
+    if memo is not None:
+        key = json.dumps(r)
+        if key not in memo:
+            memo[key] = _py_build(r, memo)
+        return memo[key]
+    return _py_build(r, None)
+
+
+def _py_build(r, memo):
     import numpy as np
     from qupulse.program import waveforms as W
     from qupulse.pulses import interpolation as I
@@ -145,38 +157,38 @@ def py_build(r):
         expr = ' + '.join('%r*t**%d' % (a, i) for i, a in enumerate(coef)) or '0'
         w = W.FunctionWaveform(ExpressionScalar(expr), _tm(r[2]), CH[r[3]])
     elif k == 'seq':
-        subs = [py_build(x) for x in r[2]]
+        subs = [py_build(x, memo) for x in r[2]]
         w = W.SequenceWaveform.from_sequence(subs) if r[1] else W.SequenceWaveform(subs)
     elif k == 'multi':
-        subs = [py_build(x) for x in r[2]]
+        subs = [py_build(x, memo) for x in r[2]]
         w = W.MultiChannelWaveform.from_parallel(subs) if r[1] else W.MultiChannelWaveform(subs)
     elif k == 'rep':
-        b = py_build(r[2])
+        b = py_build(r[2], memo)
         w = W.RepetitionWaveform.from_repetition_count(b, r[3]) if r[1] else W.RepetitionWaveform(b, r[3])
     elif k == 'trans':
-        b = py_build(r[2])
+        b = py_build(r[2], memo)
         T = _trafo_py(r[3])
         w = W.TransformingWaveform.from_transformation(b, T) if r[1] else W.TransformingWaveform(b, T)
     elif k == 'subset':
-        w = W.SubsetWaveform(py_build(r[1]), {CH[c] for c in r[2]})
+        w = W.SubsetWaveform(py_build(r[1], memo), {CH[c] for c in r[2]})
     elif k == 'getsubset':
-        w = py_build(r[1]).get_subset_for_channels({CH[c] for c in r[2]})
+        w = py_build(r[1], memo).get_subset_for_channels({CH[c] for c in r[2]})
     elif k == 'arith':
-        a, b = py_build(r[2]), py_build(r[4])
+        a, b = py_build(r[2], memo), py_build(r[4], memo)
         w = W.ArithmeticWaveform.from_operator(a, r[3], b) if r[1] else W.ArithmeticWaveform(a, r[3], b)
     elif k == 'functor':
-        b = py_build(r[2])
+        b = py_build(r[2], memo)
         fm = {'neg': np.negative, 'pos': np.positive, 'abs': np.abs}
         f = {CH[c]: fm[g] for c, g in r[3]}
         w = W.FunctorWaveform.from_functor(b, f) if r[1] else W.FunctorWaveform(b, f)
     elif k == 'neg':
-        w = -py_build(r[1])
+        w = -py_build(r[1], memo)
     elif k == 'rev':
-        w = W.ReversedWaveform(py_build(r[1]))
+        w = W.ReversedWaveform(py_build(r[1], memo))
     elif k == 'fromrev':
-        w = W.ReversedWaveform.from_to_reverse(py_build(r[1]))
+        w = W.ReversedWaveform.from_to_reverse(py_build(r[1], memo))
     elif k == 'reversed':
-        w = py_build(r[1]).reversed()
+        w = py_build(r[1], memo).reversed()
     else:
         raise ValueError(k)
     w.defined_channels      # a transformation that does not fit its inner waveform raises here (KeyError)
@@ -229,6 +241,44 @@ def _cvjson(v):
     return None if v is None else vlib.frac_json(v)
 
 
+def _build_case(case):
+    """the real object of a case; `share`: equal sub-recipes are one object"""
+    return py_build(case['r'], {} if case.get('share') else None)
+
+
+_GARBAGE = 99.5     # content of a supplied output array before the first call writes into it (never a generated voltage)
+
+
+def _mk_array(vals, flavour, np):
+    """a float array with the given content: plain, or a strided / negatively strided view into a larger buffer"""
+    if flavour == 'view':
+        base = np.full(2 * len(vals) + 1, -7.25)
+        a = base[1::2]
+        a[:] = vals
+        return a
+    if flavour == 'rview':
+        base = np.full(len(vals), -7.25)
+        a = base[::-1]
+        a[:] = vals
+        return a
+    return np.array(vals, dtype=float)
+
+
+def _alloc_at(vals, flavour, want, np):
+    """allocate the array, trying to land on the address of a just freed array object (`want` = its id): candidates
+    that land elsewhere are held until the search ends.  -> (array, landed on the wanted address?)"""
+    held = []
+    a = None
+    for _ in range(32):
+        a = _mk_array(vals, flavour, np)
+        if want is None or id(a) == want:
+            break
+        held.append(a)
+    hit = want is not None and id(a) == want
+    del held
+    return a, hit
+
+
 def run_impl(case):
     import numpy as np
     k = case['kind']
@@ -236,7 +286,7 @@ def run_impl(case):
         _STATS['inexact_cases'] += 1
         _STATS['inexact_samples'] += 2 * len(case['grid']) * len(case['chans'])
     if k in ('sample', 'dec'):
-        b = _guard(lambda: py_build(case['r']))
+        b = _guard(lambda: _build_case(case))
         if b[0] != 'ok':
             return _sres(b) if b[0] == 'err' else {'crash': str(b)}
         w = b[1]
@@ -244,11 +294,12 @@ def run_impl(case):
         ok_grid = _grid_ok(case['grid'], vlib.to_fraction(w.duration))
         per = []
         keep = []
+        mutated = []
         for c in case['chans']:
             ch = CH[c]
             o = {'c': c}
             if ch in w.defined_channels:
-                g = _guard(lambda: _cvjson(py_build(case['r']).constant_value(ch)))
+                g = _guard(lambda: _cvjson(_build_case(case).constant_value(ch)))
                 if g[0] == 'err':
                     # constant_value itself raised (KeyError inside a transformation chain): get_sampled raises the same
                     o['cv'] = None
@@ -260,23 +311,36 @@ def run_impl(case):
             else:
                 o['cv'] = None
             def gs_call():
-                res = py_build(case['r']).get_sampled(ch, grid.copy())
+                ts = grid.copy()
+                ts.flags.writeable = False           # the sampler must not write into the caller's time array
+                res = _build_case(case).get_sampled(ch, ts)
                 keep.append(res)
+                if not np.array_equal(ts, grid):
+                    mutated.append(c)
                 return _vals(res)
             g = _guard(gs_call)
             if g[0] not in ('ok', 'err'):
                 return {'crash': 'get_sampled: %s' % (g,)}
             o['gs'] = _sres(g)
             if ok_grid and ch in w.defined_channels and len(grid):
-                g = _guard(lambda: _vals(py_build(case['r']).unsafe_sample(ch, grid.copy())))
+                def us_call():
+                    ts = grid.copy()
+                    res = _build_case(case).unsafe_sample(ch, ts)
+                    if not np.array_equal(ts, grid):
+                        mutated.append(c)
+                    return _vals(res)
+                g = _guard(us_call)
                 if g[0] not in ('ok', 'err'):
                     return {'crash': 'unsafe_sample: %s' % (g,)}
                 o['us'] = _sres(g)
             else:
                 o['us'] = None
             per.append(o)
-        return {'built': {'chs': sorted(CH.index(c) for c in w.defined_channels),
-                          'dur': vlib.frac_json(w.duration), 'per': per}}
+        out = {'built': {'chs': sorted(CH.index(c) for c in w.defined_channels),
+                         'dur': vlib.frac_json(w.duration), 'per': per}}
+        if mutated:
+            out['mutated'] = mutated
+        return out
     if k == 'eq':
         a, b = _guard(lambda: py_build(case['r1'])), _guard(lambda: py_build(case['r2']))
         if a[0] == 'err' or b[0] == 'err':
@@ -297,40 +361,164 @@ def run_impl(case):
             same = _same_behaviour(case, a, b)
         return {'built': True, 'eq': eq, 'hash_eq': heq, 'same': same}
     if k == 'hist':
-        b = _guard(lambda: py_build(case['r']))
-        if b[0] == 'err':
-            return {'answers': [], 'fresh': []}
-        if b[0] != 'ok':
-            return {'crash': str(b)}
-        w = b[1]
-        arrays = {}
-        keep = []
-        answers, fresh = [], []
-        for op in case['ops']:
-            if op[0] == 'set':
-                new = [float(F(t)) for t in op[2]]
-                if op[1] in arrays and len(arrays[op[1]]) == len(new):
-                    arrays[op[1]][:] = new           # same OBJECT, new content
-                else:
-                    arrays[op[1]] = np.array(new, dtype=float)
-                continue
-            _, c, aid, use_out = op
-            ts = arrays[aid]
-            out = np.full(len(ts), np.nan) if use_out else None   # unassigned entries stay NaN
-            def one_call():
-                res = w.get_sampled(CH[c], ts, out) if use_out else w.get_sampled(CH[c], ts)
-                if use_out and res is not out:
-                    raise RuntimeError('get_sampled did not return the supplied output array')
-                keep.append(res)          # results stay alive: Waveform.__sampled_cache is a WeakValueDictionary
-                return _vals(res)
-            g = _guard(one_call)
-            if g[0] not in ('ok', 'err'):
-                return {'crash': 'history call: %s' % (g,)}
-            answers.append(_sres(g))
-            g2 = _guard(lambda: _vals(py_build(case['r']).get_sampled(CH[c], ts.copy())))
-            fresh.append(_sres(g2) if g2[0] in ('ok', 'err') else {'crash': str(g2)})
-        return {'answers': answers, 'fresh': fresh}
+        return _run_history(case, np)
     raise ValueError(k)
+
+
+def _query(w, kind, ch):
+    """a read-only question to a waveform object, as a comparable value"""
+    if kind == 'cv':
+        return _cvjson(w.constant_value(ch)) if ch in w.defined_channels else None
+    if kind == 'cvd':
+        d = w.constant_value_dict()
+        return None if d is None else sorted((str(k), _cvjson(v)) for k, v in d.items())
+    if kind == 'chans':
+        return sorted(str(c) for c in w.defined_channels)
+    if kind == 'dur':
+        return vlib.frac_json(w.duration)
+    if kind == 'hash':
+        return hash(w)
+    if kind == 'subset':
+        return w.get_subset_for_channels({ch}) if ch in w.defined_channels else None
+    if kind == 'reversed':
+        return w.reversed()
+    if kind == 'neg':
+        return -w
+    if kind == 'self-eq':
+        return bool(w == w) and not bool(w != w)
+    raise ValueError(kind)
+
+
+def _run_history(case, np):
+    """ops on ONE object:
+         ['set', slot, times]             the array object of the slot gets this content IN PLACE (new object when the slot is
+                                          empty or the length differs)
+         ['new', slot, times]             the slot's array object is dropped (freed) and a new one with this content is made,
+                                          if possible at the SAME ADDRESS
+         ['call', c, slot, out(, oslot)]  get_sampled(channel, array of the slot [, output array]); with `oslot` the output
+                                          array is the object of that output slot, REUSED with whatever the previous call left
+                                          in it (garbage before the first use); without, a fresh NaN array
+         ['tmp', c, times, out]           get_sampled with a temporary time array nobody keeps
+         ['query', kind, c]               a read-only question (constant_value, hash, get_subset ...), compared with the
+                                          answer of a fresh object
+       flavours: case['arr'] in plain / view / rview (strided views), case['ro'] (time arrays are read-only)"""
+    b = _guard(lambda: _build_case(case))
+    if b[0] == 'err':
+        return {'answers': [], 'fresh': []}
+    if b[0] != 'ok':
+        return {'crash': str(b)}
+    w = b[1]
+    flavour = case.get('arr', 'plain')
+    ro = bool(case.get('ro'))
+    arrays, content, outs = {}, {}, {}
+    keep = []
+    answers, fresh, queries = [], [], []
+    mutated = False
+    realloc = {'tried': 0, 'same_address': 0}
+    last_freed = [None]
+
+    def vals_of(ts):
+        return [float(F(t)) for t in ts]
+
+    def one_call(ch, ts, expect, use_out, oslot):
+        if oslot is not None:
+            out = outs.get(oslot)
+            if out is None or len(out) != len(ts):
+                out = _mk_array([_GARBAGE + i for i in range(len(ts))], flavour, np)
+                outs[oslot] = out
+        elif use_out:
+            out = np.full(len(ts), np.nan)      # unassigned entries stay NaN
+        else:
+            out = None
+        res = w.get_sampled(ch, ts, out) if out is not None else w.get_sampled(ch, ts)
+        if out is not None and res is not out:
+            raise RuntimeError('get_sampled did not return the supplied output array')
+        if not np.array_equal(ts, np.array(expect)):
+            raise _Mutated()
+        v = _vals(res)
+        keep.append(res.copy() if oslot is not None else res)   # results stay alive: __sampled_cache is a WeakValueDictionary
+        return v
+
+    for op in case['ops']:
+        kind = op[0]
+        if kind == 'set':
+            new = vals_of(op[2])
+            if op[1] in arrays and len(arrays[op[1]]) == len(new):
+                a = arrays[op[1]]
+                a.flags.writeable = True
+                a[:] = new                       # same OBJECT, new content
+                a.flags.writeable = not ro
+                del a                            # (no stray reference: 'new' must be able to free the object)
+            else:
+                arrays[op[1]] = _mk_array(new, flavour, np)
+                arrays[op[1]].flags.writeable = not ro
+            content[op[1]] = new
+            continue
+        if kind == 'new':
+            new = vals_of(op[2])
+            want = None
+            if op[1] in arrays:
+                want = id(arrays[op[1]])
+                del arrays[op[1]]                # the only reference: the array object is freed here
+            a, hit = _alloc_at(new, flavour, want, np)
+            if want is not None:
+                realloc['tried'] += 1
+                realloc['same_address'] += bool(hit)
+            a.flags.writeable = not ro
+            arrays[op[1]] = a
+            content[op[1]] = new
+            del a
+            continue
+        if kind == 'query':
+            ch = CH[op[2]]
+            x = _guard(lambda: _query(w, op[1], ch))
+            y = _guard(lambda: _query(_build_case(case), op[1], ch))
+            if x[0] in ('crash', 'hang') and not (y[0] == 'crash' and x[1].split(':')[0] == y[1].split(':')[0]):
+                queries.append(False)
+            else:
+                queries.append(bool(x[0] == y[0] and (x[0] != 'ok' or x[1] == y[1])))
+            continue
+        if kind == 'tmp':
+            _, c, times, use_out = op
+            expect = vals_of(times)
+            def tmp_call():
+                a, hit = _alloc_at(expect, flavour, last_freed[0], np)
+                if last_freed[0] is not None:
+                    realloc['tried'] += 1
+                    realloc['same_address'] += bool(hit)
+                a.flags.writeable = not ro
+                last_freed[0] = id(a)
+                return one_call(CH[c], a, expect, use_out, None)
+            g = _guard(tmp_call)
+        else:
+            _, c, aid, use_out = op[:4]
+            oslot = op[4] if len(op) > 4 else None
+            ts = arrays[aid]
+            expect = content[aid]
+            g = _guard(lambda: one_call(CH[c], ts, expect, use_out, oslot))
+            del ts
+        if g[0] == 'crash' and g[1].startswith('_Mutated'):
+            mutated = True
+            g = ('err', 'EType')
+        if g[0] not in ('ok', 'err'):
+            return {'crash': 'history call: %s' % (g,)}
+        answers.append(_sres(g))
+        g2 = _guard(lambda: _vals(_build_case(case).get_sampled(CH[c], np.array(expect))))
+        fresh.append(_sres(g2) if g2[0] in ('ok', 'err') else {'crash': str(g2)})
+    out = {'answers': answers, 'fresh': fresh}
+    if queries:
+        out['queries'] = queries
+    if mutated:
+        out['mutated'] = True
+    if realloc['tried']:
+        out['realloc'] = realloc
+        _STATS['realloc_tried'] += realloc['tried']
+        _STATS['realloc_same_address'] += realloc['same_address']
+    return out
+
+
+class _Mutated(Exception):
+    pass
 
 
 def _same_behaviour(case, a, b):
@@ -465,18 +653,36 @@ def to_coq(case, obs):
         return '(CEq %s %s true %s %s)' % (g_recipe(case['r1']), g_recipe(case['r2']), gbool(obs['eq']),
                                            gopt(gbool, obs['hash_eq']))
     if k == 'hist':
-        arrays = {}
-        calls = []
-        for op in case['ops']:
-            if op[0] == 'set':
-                arrays[op[1]] = op[2]
-            else:
-                calls.append('(mkCall %s %d%%N %s %s)' % (gch(op[1]), op[2], glist(gq, arrays[op[2]]), gbool(op[3])))
         if any('crash' in a for a in obs['answers']):
             return 'CCrash'
+        calls = ['(mkCall %s %d%%N %s %s)' % (gch(c), ident, glist(gq, ts), gbool(bool(out)))
+                 for c, ident, ts, out in hist_calls(case)]
         return '(CHist %s %s %s)' % (g_recipe(case['r']), '[' + '; '.join(calls) + ']',
                                      glist(g_sres, obs['answers']))
     raise ValueError(k)
+
+
+def hist_calls(case):
+    """the sampling calls of a history as the model sees them: (channel, IDENTITY of the time array object, its content at
+    the time of the call, output array supplied?).  An in-place 'set' keeps the identity, 'new' / 'tmp' / a 'set' with
+    another length make a new object"""
+    ident, content, nxt, calls = {}, {}, 0, []
+    for op in case['ops']:
+        if op[0] == 'set':
+            if op[1] not in ident or len(content[op[1]]) != len(op[2]):
+                ident[op[1]] = nxt
+                nxt += 1
+            content[op[1]] = op[2]
+        elif op[0] == 'new':
+            ident[op[1]] = nxt
+            nxt += 1
+            content[op[1]] = op[2]
+        elif op[0] == 'call':
+            calls.append((op[1], ident[op[2]], content[op[2]], bool(op[3]) or len(op) > 4))
+        elif op[0] == 'tmp':
+            calls.append((op[1], nxt, op[2], bool(op[3])))
+            nxt += 1
+    return calls
 
 
 # ---------------------------------------------------------------------------------------------------------------------
@@ -761,6 +967,236 @@ def gen_fold_targets(rng, n):
     return out
 
 
+# ---------------------------------------------------------------------------------------------------------------------
+# round 3: input classes the random generator reaches only by luck (each family is deterministic in its defining feature)
+
+OFFS = [F(1, 16), F(1, 8), F(3, 16)]
+
+
+def nonconst_leaf(rng, c, dur):
+    """a leaf of duration dur that is constant nowhere (every sample identifies its time); table segments have
+    power-of-two lengths so that the slopes are exact"""
+    v0 = rng.choice(VOLT)
+    nq = int(dur / Q4)
+    if rng.random() < 0.4:
+        return ['func', [fs(v0), fs(rng.choice([F(1), F(-1), F(2), F(-2), F(1, 2)]))], fs(dur), c]
+    segs = []
+    while nq > 0:
+        sgl = rng.choice([x for x in (1, 2, 4, 8) if x <= nq and (x == nq or rng.random() < 0.5 or x == 1)])
+        segs.append(sgl)
+        nq -= sgl
+    t, v, ent = F(0), v0, [['0', fs(v0), 'h']]
+    for sgl in segs:
+        t += sgl * Q4
+        v = rng.choice([x for x in VOLT if x != v])
+        ent.append([fs(t), fs(v), 'l'])
+    return ['table', rng.random() < 0.5, c, ent]
+
+
+def gen_piece_targets(rng, n):
+    """repetitions (count 3..5) / sequences (3..4 parts) of non-constant pieces, bare or below every other class.
+    -> (recipe, duration, channels, pieces): pieces = the (start, end) intervals of the repetitions / parts in the time
+    frame of the whole waveform (mirrored below a reversal)"""
+    out = []
+    for _ in range(n):
+        c = rng.randrange(1, 5)
+        opt = rng.random() < 0.5
+        def piece(d):
+            k = rng.random()
+            if k < 0.6:
+                return nonconst_leaf(rng, c, d)
+            if k < 0.8:
+                return ['trans', rng.random() < 0.5, nonconst_leaf(rng, c, d), [rng.choice(['scale', 'offset']), [[c, gen_tval(rng)]]]]
+            if k < 0.9 and d >= 2 * Q4:
+                return ['seq', rng.random() < 0.5, [nonconst_leaf(rng, c, d / 2), nonconst_leaf(rng, c, d / 2)]]
+            return ['functor', rng.random() < 0.5, nonconst_leaf(rng, c, d), [[c, rng.choice(['neg', 'abs'])]]]
+        if rng.random() < 0.55:
+            d = rng.choice([1, 1, 2]) * Q4
+            cnt = rng.choice([3, 3, 4, 5])
+            core, durs = ['rep', opt, piece(d), cnt], [d] * cnt
+        else:
+            durs = [rng.choice([1, 1, 2, 3]) * Q4 for _ in range(rng.choice([3, 3, 4]))]
+            core = ['seq', opt, [piece(d) for d in durs]]
+        t, pieces = F(0), []
+        for d in durs:
+            pieces.append((t, t + d))
+            t += d
+        dur, chans, r = t, [c], core
+        wrap = rng.choice(['none', 'none', 'multi', 'trans', 'functor', 'arith', 'subset', 'lead', 'rep2', 'rev', 'rev'])
+        other = [x for x in range(1, 5) if x != c][0]
+        if wrap == 'multi':
+            r, chans = ['multi', rng.random() < 0.5, [r, nonconst_leaf(rng, other, dur)]], sorted([c, other])
+        elif wrap == 'trans':
+            r = ['trans', rng.random() < 0.5, r, [rng.choice(['scale', 'offset']), [[c, gen_tval(rng)]]]]
+        elif wrap == 'functor':
+            r = ['neg', r] if rng.random() < 0.4 else ['functor', rng.random() < 0.5, r, [[c, rng.choice(['neg', 'abs'])]]]
+        elif wrap == 'arith':
+            r = ['arith', rng.random() < 0.5, r, rng.choice('+-'), nonconst_leaf(rng, c, dur)]
+            if rng.random() < 0.5:
+                r = ['arith', r[1], r[4], r[3], r[2]]
+        elif wrap == 'subset':
+            r = [rng.choice(['subset', 'getsubset']), ['multi', rng.random() < 0.5, [r, nonconst_leaf(rng, other, dur)]], [c]]
+        elif wrap == 'lead':
+            d0 = rng.choice([1, 2]) * Q4
+            r = ['seq', rng.random() < 0.5, [nonconst_leaf(rng, c, d0), r]]
+            pieces = [(F(0), d0)] + [(a + d0, b + d0) for a, b in pieces]
+            dur += d0
+        elif wrap == 'rep2':
+            r = ['rep', rng.random() < 0.5, r, 2]
+            pieces = pieces + [(a + dur, b + dur) for a, b in pieces]
+            dur *= 2
+        elif wrap == 'rev':
+            r = [rng.choice(['rev', 'fromrev', 'reversed']), r]
+            pieces = sorted((dur - b, dur - a) for a, b in pieces)
+        out.append((r, dur, chans, pieces))
+    return out
+
+
+def sparse_grids(rng, pieces):
+    """grids that leave whole pieces WITHOUT a sample (never on a junction, except 'late-on')"""
+    def pt(k):
+        a, b = pieces[k]
+        return a + rng.choice([o for o in OFFS if o < b - a])
+    last = len(pieces) - 1
+    mid = rng.randrange(1, last) if last >= 2 else last
+    gs = {
+        'late1': [pt(last)],
+        'one': [pt(mid)],
+        'ends': [pt(0), pt(last)],
+        'skip': [pt(k) for k in range(1, last + 1, 2)],
+        'tail': sorted({pieces[last][0] + F(1, 16), pieces[last][0] + F(3, 16)}),
+        'late-on': [pieces[last][0]],
+    }
+    return gs
+
+
+def gen_share_targets(rng, n):
+    """recipes in which equal sub-recipes occur twice: built with case['share'] they are ONE object (the same waveform
+    nested twice in a sequence, on both sides of an operator, inside and beside a repetition)"""
+    out = []
+    for _ in range(n):
+        c = rng.randrange(1, 5)
+        d = rng.choice([1, 2, 2]) * Q4
+        def piece():
+            x = nonconst_leaf(rng, c, d)
+            if rng.random() < 0.6:
+                x = ['trans', False, x, [rng.choice(['scale', 'offset']), [[c, gen_tval(rng)]]]]
+            return x
+        x, y = piece(), piece()
+        shape = rng.choice(['seq-xx', 'seq-xyx', 'rep-seq', 'arith-xx', 'arith-cross', 'rep-beside', 'both-sides', 'rev-beside'])
+        opt = rng.random() < 0.4
+        if shape == 'seq-xx':
+            r, dur = ['seq', opt, [x, x]], 2 * d
+        elif shape == 'seq-xyx':
+            r, dur = ['seq', opt, [x, y, x]], 3 * d
+        elif shape == 'rep-seq':
+            r, dur = ['rep', opt, ['seq', False, [x, x]], 2], 4 * d
+        elif shape == 'arith-xx':
+            r, dur = ['arith', opt, x, rng.choice('+-'), x], d
+        elif shape == 'arith-cross':
+            r, dur = ['arith', opt, ['seq', False, [x, y]], rng.choice('+-'), ['seq', False, [y, x]]], 2 * d
+        elif shape == 'rep-beside':
+            r, dur = ['seq', opt, [['rep', False, x, 2], x, x]], 4 * d
+        elif shape == 'both-sides':
+            r, dur = ['arith', opt, x, rng.choice('+-'), ['functor', False, x, [[c, rng.choice(['neg', 'abs'])]]]], d
+        else:
+            r, dur = ['seq', opt, [x, ['rev', x], x]], 3 * d
+        out.append((r, dur, [c]))
+    return out
+
+
+def off_grid(rng, dur, m):
+    cand = [i * F(1, 16) for i in range(1, int(dur / F(1, 16))) if i % 4]
+    return sorted(rng.sample(cand, min(m, len(cand))))
+
+
+def gen_alias_history(rng, dur, chans, style=None):
+    """histories about the IDENTITY of the arrays handed over (all times off the junctions, so nothing is masked by a known
+    finding): temporaries of equal length with different content (a freed array's address is taken by the next one),
+    an array slot re-allocated at the same address, an output array object reused by later calls with what the earlier
+    ones left in it, read-only queries in between"""
+    cs = sorted(chans)
+    m = rng.randint(2, 4)
+    g = lambda: [fs(t) for t in off_grid(rng, dur, m)]   # noqa
+    style = style or rng.choice(['tmp', 'tmp', 'realloc', 'realloc', 'outreuse', 'outreuse', 'query', 'mixed'])
+    ops = []
+    if style == 'tmp':
+        for _ in range(rng.randint(2, 4)):
+            ops.append(['tmp', rng.choice(cs), g(), rng.random() < 0.3])
+    elif style == 'realloc':
+        for _ in range(rng.randint(2, 4)):
+            ops += [['new', 0, g()], ['call', rng.choice(cs), 0, rng.random() < 0.3]]
+    elif style == 'outreuse':
+        ops += [['set', 0, g()], ['set', 1, g()]]
+        for _ in range(rng.randint(2, 4)):
+            ops.append(['call', rng.choice(cs), rng.choice([0, 1]), True, 0])
+        ops.append(['call', rng.choice(cs), 0, False])
+    elif style == 'query':
+        ops += [['set', 0, g()], ['query', rng.choice(QUERIES), rng.choice(cs)], ['call', rng.choice(cs), 0, False]]
+        for _ in range(rng.randint(2, 4)):
+            ops.append(['query', rng.choice(QUERIES), rng.choice(cs)])
+            ops.append(['call', rng.choice(cs), 0, rng.random() < 0.3])
+    else:
+        ops += [['set', 0, g()], ['call', rng.choice(cs), 0, True, 0], ['tmp', rng.choice(cs), g(), False],
+                ['new', 0, g()], ['query', rng.choice(QUERIES), rng.choice(cs)], ['call', rng.choice(cs), 0, True, 0],
+                ['tmp', rng.choice(cs), g(), True], ['tmp', rng.choice(cs), g(), False], ['call', rng.choice(cs), 0, False]]
+    return {'kind': 'hist', 'ops': ops, 'dur': fs(dur), 'arr': rng.choice(['plain', 'plain', 'view', 'rview']),
+            'ro': rng.random() < 0.6, 'style': style}
+
+
+QUERIES = ['cv', 'cvd', 'chans', 'dur', 'hash', 'subset', 'reversed', 'neg', 'self-eq']
+
+
+def sparse_history(rng, r, dur, chans, pieces):
+    """one output array object through a grid that visits the first, a middle and the last piece and through sparse grids
+    of the same length (all times in the last piece; all in the second piece): what a call leaves unwritten shows as the
+    STALE value the call before left there"""
+    c = rng.choice(sorted(chans))
+    m = len(pieces)
+    L = 3 if m >= 3 else 2
+    inside = lambda k: [pieces[k][0] + o for o in OFFS]      # noqa  (every piece is at least 1/4 long)
+    spread = [rng.choice(inside(0))] + ([rng.choice(inside(m // 2))] if L == 3 else []) + [rng.choice(inside(m - 1))]
+    late, second = inside(m - 1)[:L], inside(1)[:L]
+    f = lambda ts: [fs(t) for t in ts]   # noqa
+    ops = [['set', 0, f(spread)], ['call', c, 0, True, 0], ['set', 1, f(late)], ['call', c, 1, True, 0],
+           ['set', 2, f(second)], ['call', c, 2, True, 0], ['call', c, 0, True, 0], ['call', c, 1, False],
+           ['tmp', c, f(late[:1]), False], ['tmp', c, f(second[:1]), True]]
+    return {'kind': 'hist', 'r': r, 'ops': ops, 'dur': fs(dur), 'arr': rng.choice(['plain', 'view']), 'ro': True,
+            'style': 'sparse-out'}
+
+
+def gen_name_targets(rng):
+    """channel names that coincide: a linear transformation that swaps / rotates channels or maps a channel to a multiple
+    of itself, renaming there and back, a parallel constant named like an inner channel, and a channel called 't' (the
+    name of the time variable in time dependent transformation entries)"""
+    out = []
+    d = rng.choice([2, 4]) * Q4
+    X, Y, Z, T = 1, 2, 3, 5
+    leaf = lambda c: nonconst_leaf(rng, c, d)   # noqa
+    m3 = lambda: ['multi', rng.random() < 0.5, [leaf(X), leaf(Y), leaf(Z)]]   # noqa
+    for opt in (False, True):
+        out += [
+            (['trans', opt, m3(), ['linear', [X, Y], [X, Y], [['0', '1'], ['1', '0']]]], d, [X, Y, Z]),              # swap
+            (['trans', opt, m3(), ['linear', [X, Y, Z], [X, Y, Z], [['0', '1', '0'], ['0', '0', '1'], ['1', '0', '0']]]], d, [X, Y, Z]),
+            (['trans', opt, m3(), ['linear', [X], [X], [['2']]]], d, [X, Y, Z]),                                     # x -> 2 x
+            (['trans', opt, m3(), ['linear', [X, Y], [Y], [['1', '1']]]], d, [Y, Z]),                                # y -> x + y
+            (['trans', opt, m3(), ['chain', [['linear', [X], [4], [['2']]], ['linear', [4], [X], [['1/2']]]]]], d, [X, Y, Z]),
+            (['trans', opt, m3(), ['chain', [['linear', [X, Y], [X, Y], [['0', '1'], ['1', '0']]],
+                                            ['linear', [X, Y], [X, Y], [['0', '1'], ['1', '0']]]]]], d, [X, Y, Z]),
+            (['trans', opt, m3(), ['parallel', [[X, ['t', '1', '2']]]]], d, [X, Y, Z]),
+            (['trans', opt, m3(), ['chain', [['scale', [[X, ['c', '2']]]], ['parallel', [[X, ['c', '3']]]], ['offset', [[X, ['t', '0', '1']]]]]]], d, [X, Y, Z]),
+            # the channel called 't'
+            (['trans', opt, ['multi', False, [leaf(T), leaf(X)]], ['scale', [[T, ['t', '1', '2']], [X, ['t', '0', '1']]]]], d, [X, T]),
+            (['trans', opt, ['multi', False, [leaf(T), leaf(X)]], ['offset', [[T, ['t', '1/2', '-1']]]]], d, [X, T]),
+            (['trans', opt, leaf(X), ['parallel', [[T, ['t', '1', '1']]]]], d, [X, T]),
+            (['trans', opt, ['multi', False, [leaf(T), leaf(X)]], ['linear', [T, X], [T], [['1', '2']]]], d, [T]),
+            (['functor', opt, ['multi', False, [leaf(T), leaf(X)]], [[T, 'neg'], [X, 'abs']]], d, [X, T]),
+            (['arith', opt, leaf(T), '-', ['multi', False, [leaf(T), leaf(X)]]], d, [X, T]),
+            (['getsubset', ['rep', opt, ['multi', False, [leaf(T), leaf(X)]], 2], [T]], 2 * d, [T]),
+        ]
+    return out
+
+
 def malformed_recipes(rng):
     c = lambda d, v, ch: ['const', fs(d), fs(v), ch]   # noqa
     t = lambda ch, ents, val=True: ['table', val, ch, [[fs(a), fs(b), i] for a, b, i in ents]]   # noqa
@@ -784,6 +1220,15 @@ def malformed_recipes(rng):
         ['trans', True, c(1, 1, 1), ['linear', [3, 4], [2], [['1', '1']]]],
         ['trans', False, c(1, 1, 1), ['linear', [3, 4], [2], [['1', '1']]]],
         ['trans', False, t(1, [(0, 0, 'h'), (1, 1, 'l')]), ['linear', [3, 4], [2], [['1', '1']]]],
+        # "declared as empty" instead of "not declared"
+        ['getsubset', c(1, 1, 1), []], ['getsubset', ['multi', False, [c(1, 1, 1), c(1, 2, 2)]], []],
+        ['getsubset', ['seq', False, [c(1, 1, 1), t(1, [(0, 0, 'h'), (1, 1, 'l')])]], []],
+        ['getsubset', ['rep', False, t(1, [(0, 0, 'h'), (1, 1, 'l')]), 2], []], ['subset', c(1, 1, 1), []],
+        ['getsubset', ['functor', False, t(1, [(0, 0, 'h'), (1, 1, 'l')]), [[1, 'neg']]], []],
+        ['trans', False, t(1, [(0, 0, 'h'), (1, 1, 'l')]), ['scale', []]], ['trans', True, c(1, 1, 1), ['offset', []]],
+        ['trans', False, t(1, [(0, 0, 'h'), (1, 1, 'l')]), ['parallel', []]], ['trans', True, c(1, 1, 1), ['parallel', []]],
+        ['trans', True, t(1, [(0, 0, 'h'), (1, 1, 'l')]), ['chain', []]], ['trans', True, c(1, 1, 1), ['chain', []]],
+        ['functor', False, c(1, 1, 1), []], ['functor', True, c(1, 1, 1), []],
     ]
     return out
 
@@ -864,7 +1309,7 @@ def exhaustive_small(tier):
 # (`inexact_cases`).  Which piece answers a junction must still be exact: every generated ramp ends at a value at least
 # 1/2 away from where it (and the next piece) starts, a wrong piece is off by far more than the tolerance.
 
-_STATS = {'inexact_cases': 0, 'inexact_samples': 0}
+_STATS = {'inexact_cases': 0, 'inexact_samples': 0, 'realloc_tried': 0, 'realloc_same_address': 0}
 DEC_FAMILIES = [(10, [1, 1, 3, 7, 11, 2, 9]), (3, [1, 1, 2, 4]), (5, [1, 2, 3]), (6, [1, 5]), (7, [1, 2]), (100, [7, 11, 33])]
 
 
@@ -977,7 +1422,8 @@ def gen_dec_cases(rng, tier):
 
 
 def extra_evidence(ctx):
-    return {'inexact_cases': _STATS['inexact_cases'], 'inexact_samples_compared': _STATS['inexact_samples'],
+    return {'time_arrays_reallocated': _STATS['realloc_tried'], 'of_these_at_the_same_address': _STATS['realloc_same_address'],
+            'inexact_cases': _STATS['inexact_cases'], 'inexact_samples_compared': _STATS['inexact_samples'],
             'inexact_tolerance_abs': '2^-30',
             'inexact_note': 'decimal stream (kind dec): durations k/10, k/3, k/5, k/6, k/7, k/100 as exact TimeType, grid '
                             'points on every junction (correctly rounded doubles of the exact rationals); binary64 samples '
@@ -1072,6 +1518,45 @@ def gen_cases(rng, tier, ctx):
         cases.append({'kind': 'hist', 'r': r, 'ops': [['set', 0, ['0', '1/4', '1/2']], ['call', 1, 0, False],
                                                       ['call', 1, 0, False], ['call', 1, 0, True]], 'dur': '1'})
     cases += shadow_histories(rng, 6 if tier == 'quick' else 60)
+    # ---- round 3 families ----
+    # (a) grids that leave whole repetitions / sequence parts without a sample; the same through one reused output array
+    for r, dur, chans, pieces in gen_piece_targets(rng, 36 if tier == 'quick' else 500):
+        gs = sparse_grids(rng, pieces)
+        names = ['late1', 'late-on'] + rng.sample(['one', 'ends', 'skip', 'tail'], 2 if tier == 'quick' else 4)
+        for name in names:
+            cases.append({'kind': 'sample', 'grid_kind': 'sparse-on' if name == 'late-on' else 'sparse', 'r': r,
+                          'grid': [fs(t) for t in gs[name]], 'chans': sorted(chans), 'sparse': name})
+        cases.append(sparse_history(rng, r, dur, chans, pieces))
+        if rng.random() < 0.5:
+            cases.append(dict(gen_alias_history(rng, dur, chans), r=r))
+    # a single late time for random recipes
+    for r, dur, chans in recipes[:(100 if tier == 'quick' else 1500)]:
+        t = dur - rng.choice([F(1, 16), F(1, 8), F(3, 16)])
+        cases.append({'kind': 'sample', 'grid_kind': 'sparse', 'r': r, 'grid': [fs(t)], 'chans': sorted(chans), 'sparse': 'late1'})
+    # (b) the same waveform OBJECT nested twice
+    for r, dur, chans in gen_share_targets(rng, 30 if tier == 'quick' else 400):
+        gs = grids_for(rng, dur)
+        for gk in ('off', 'on', 'end'):
+            cases.append({'kind': 'sample', 'grid_kind': gk, 'r': r, 'grid': [fs(t) for t in gs[gk]], 'chans': sorted(chans),
+                          'share': True})
+        cases.append(dict(gen_alias_history(rng, dur, chans), r=r, share=True))
+        cases.append({'kind': 'hist', 'r': r, 'share': True, 'dur': fs(dur),
+                      'ops': [['set', 0, [fs(t) for t in gs['off']]], ['call', chans[0], 0, False], ['call', chans[0], 0, True],
+                              ['set', 1, [fs(t) for t in gs['off'][::-1][:2][::-1]]], ['call', chans[0], 1, False],
+                              ['call', chans[0], 0, False]]})
+    # (c) identity of the arrays: freed and re-allocated time arrays, temporaries, reused output arrays, queries, views
+    k = 0
+    for r, dur, chans in recipes:
+        if k >= (90 if tier == 'quick' else 1200):
+            break
+        if k % 3 and not has_kind(r, ('trans',)):
+            continue                              # two thirds of these histories go to recipes with transformations
+        k += 1
+        cases.append(dict(gen_alias_history(rng, dur, chans), r=r))
+    # (d) coinciding channel names
+    for r, dur, chans in gen_name_targets(rng):
+        add_sample(r, dur, chans)
+        cases.append(dict(gen_alias_history(rng, dur, chans), r=r))
     cases += gen_dec_cases(rng, tier)
     return cases
 
@@ -1190,7 +1675,35 @@ def histogram_keys(case, obs):
             keys.append('has:' + kk)
     if k == 'eq' and obs.get('built'):
         keys.append('eq:%s' % obs['eq'])
+    if case.get('share'):
+        keys.append('shared-objects')
+    if case.get('sparse'):
+        keys.append('sparse:' + case['sparse'])
+    if k == 'hist':
+        keys.append('hist-style:' + case.get('style', 'classic'))
+        if case.get('arr', 'plain') != 'plain':
+            keys.append('arrays:' + case['arr'])
+        if case.get('ro'):
+            keys.append('arrays:read-only')
+        kinds = {op[0] for op in case['ops']}
+        for kk in ('new', 'tmp', 'query'):
+            if kk in kinds:
+                keys.append('hist-op:' + kk)
+        if any(op[0] == 'call' and len(op) > 4 for op in case['ops']):
+            keys.append('hist-op:reused-output-array')
+        if obs.get('realloc', {}).get('same_address'):
+            keys.append('time-array-reallocated-at-same-address')
+    if has_kind(r, ('linear',)) and _linear_overlap(r):
+        keys.append('linear-in-out-overlap')
     return keys
+
+
+def _linear_overlap(r):
+    if not isinstance(r, list):
+        return False
+    if r and r[0] == 'linear' and set(r[1]) & set(r[2]):
+        return True
+    return any(_linear_overlap(x) for x in r if isinstance(x, list))
 
 
 REV = ('rev', 'fromrev', 'reversed')
@@ -1202,7 +1715,7 @@ def classify(case, obs):
     k = case['kind']
     r = case.get('r') or case.get('r1')
     if k == 'dec':
-        return 'C08-nested-junction-float-rounding' if _nested_composite(r) else None
+        return 'C08-nested-junction-float-rounding' if _dec_excused(case, obs) else None
     if k == 'hist' and _shadowed_linear_after_producer(r) and not _hist_inplace(case):
         return 'C08-trafo-cache-shadowed-byproduct'
     if k == 'sample' and has_kind(r, COMPOSITE) and 'built' in obs:
@@ -1231,15 +1744,154 @@ def classify(case, obs):
     return None
 
 
-def _nested_composite(r, inside=False):
-    """an INNER junction exists: a sequence / repetition, or a table with more than two entries, below a sequence /
-    repetition (the local times of the inner one are float differences)"""
-    if not isinstance(r, list):
+TOL = F(1, 2 ** 30)
+
+
+def _rchannels(r):
+    k = r[0]
+    if k == 'table':
+        return {r[2]}
+    if k in ('const', 'func'):
+        return {r[3]}
+    if k == 'seq':
+        return _rchannels(r[2][0])
+    if k == 'multi':
+        return set().union(*[_rchannels(x) for x in r[2]])
+    if k in ('rep', 'trans', 'functor'):
+        return _rchannels(r[2])
+    if k == 'arith':
+        return _rchannels(r[2]) | _rchannels(r[4])
+    if k in ('subset', 'getsubset'):
+        return set(r[2])
+    if k == 'neg':
+        return _rchannels(r[1])
+    raise ValueError(k)
+
+
+def _rdur(r):
+    k = r[0]
+    if k == 'table':
+        return F(r[3][-1][0])
+    if k == 'const':
+        return F(r[1])
+    if k == 'func':
+        return F(r[2])
+    if k == 'seq':
+        return sum((_rdur(x) for x in r[2]), F(0))
+    if k == 'multi':
+        return _rdur(r[2][0])
+    if k == 'rep':
+        return _rdur(r[2]) * r[3]
+    if k in ('trans', 'functor', 'arith'):
+        return _rdur(r[2])
+    return _rdur(r[1])
+
+
+def _dec_eval(r, c, t, off, short):
+    """EXACT value of the plain composite a decimal-stream recipe describes, channel c, local time t; `off` = the
+    absolute start of this node (exact).  With `short`, a table that does NOT start at absolute time 0 answers a time
+    exactly on one of its inner entries with the END of the earlier segment: the one place where the implementation may
+    legitimately differ (the table gets the local time t - float(start), which can be one ulp below float(entry time))."""
+    k = r[0]
+    if k == 'const':
+        return F(r[2])
+    if k == 'func':
+        return sum((F(a) * t ** i for i, a in enumerate(r[1])), F(0))
+    if k == 'table':
+        ent = [(F(a), F(b), i) for a, b, i in r[3]]
+        def seg(j, tt):          # segment between entry j-1 and entry j
+            (t0, v0, _), (t1, v1, i) = ent[j - 1], ent[j]
+            return v0 if i == 'h' else v1 if i == 'j' else (v1 - v0) / (t1 - t0) * (tt - t0) + v0
+        if short and off != 0:
+            for j in range(1, len(ent) - 1):
+                if ent[j][0] == t:
+                    return seg(j, t)
+        val = None
+        for j in range(1, len(ent)):
+            if ent[j - 1][0] <= t <= ent[j][0]:
+                val = seg(j, t)
+        return val
+    if k == 'seq':
+        start = F(0)
+        for i, x in enumerate(r[2]):
+            d = _rdur(x)
+            if t < start + d or i == len(r[2]) - 1:
+                return _dec_eval(x, c, t - start, off + start, short)
+            start += d
+    if k == 'rep':
+        d = _rdur(r[2])
+        j = min(int(t / d), r[3] - 1)
+        return _dec_eval(r[2], c, t - j * d, off + j * d, short)
+    if k == 'multi':
+        for x in r[2]:
+            if c in _rchannels(x):
+                return _dec_eval(x, c, t, off, short)
+        return None
+    if k == 'arith':
+        inl, inr = c in _rchannels(r[2]), c in _rchannels(r[4])
+        a = _dec_eval(r[2], c, t, off, short) if inl else None
+        b = _dec_eval(r[4], c, t, off, short) if inr else None
+        if inl and inr:
+            return None if a is None or b is None else (a + b if r[3] == '+' else a - b)
+        if inl:
+            return a
+        return None if b is None else (b if r[3] == '+' else -b)
+    if k == 'functor':
+        v = _dec_eval(r[2], c, t, off, short)
+        g = dict((a, b) for a, b in r[3]).get(c)
+        return None if v is None or g is None else {'neg': -v, 'pos': v, 'abs': abs(v)}[g]
+    if k == 'neg':
+        v = _dec_eval(r[1], c, t, off, short)
+        return None if v is None else -v
+    if k == 'trans' and r[3][0] in ('scale', 'offset') and all(tv[0] == 'c' for _, tv in r[3][1]):
+        v = _dec_eval(r[2], c, t, off, short)
+        f = dict((a, F(tv[1])) for a, tv in r[3][1]).get(c)
+        if v is None or f is None:
+            return v
+        return v * f if r[3][0] == 'scale' else v + f
+    if k in ('subset', 'getsubset'):
+        return _dec_eval(r[1], c, t, off, short)
+    raise ValueError(k)
+
+
+def _dec_excused(case, obs):
+    """a failing decimal case belongs to the known finding only if EVERY sample is the exact value up to the tolerance,
+    except samples exactly on an inner entry of a table that starts at a non-zero offset, which may instead carry the
+    value the earlier table segment ends with; at least one such sample exists.  Anything else (a wrong part of a
+    sequence / repetition, NaN, an error, a wrong reported constant) is not excused."""
+    if 'built' not in obs:
         return False
-    here = bool(r) and r[0] in COMPOSITE
-    if inside and (here or (bool(r) and r[0] == 'table' and len(r[3]) > 2)):
-        return True
-    return any(_nested_composite(x, inside or here) for x in r if isinstance(x, list))
+    r = case['r']
+    try:
+        chans = _rchannels(r)
+        grid = [F(t) for t in case['grid']]
+        hit = False
+        for p in obs['built']['per']:
+            c = p['c']
+            if c not in chans:
+                continue
+            exact = [_dec_eval(r, c, t, F(0), False) for t in grid]
+            alt = [_dec_eval(r, c, t, F(0), True) for t in grid]
+            if p['cv'] is not None and any(e is None or abs(F(p['cv']) - e) > TOL for e in exact):
+                return False
+            for key in ('gs', 'us'):
+                sres = p.get(key)
+                if sres is None:
+                    continue
+                if 'ok' not in sres or len(sres['ok']) != len(grid):
+                    return False
+                for v, e, a in zip(sres['ok'], exact, alt):
+                    if v is None or e is None:
+                        return False
+                    if abs(F(v) - e) <= TOL:
+                        continue
+                    if a is not None and a != e and abs(F(v) - a) <= TOL:
+                        hit = True
+                        continue
+                    return False
+        return hit
+    except (ValueError, ZeroDivisionError, KeyError, IndexError):
+        return False
 
 
 def _shadowed_linear_after_producer(r):
@@ -1285,29 +1937,33 @@ def _has_keyerror(obs):
 
 
 def _hist_hits_boundary(case):
-    return any(op[0] == 'set' and any(F(t) % Q4 == 0 for t in op[2]) for op in case['ops'])
+    return any(any(F(t) % Q4 == 0 for t in ts) for _, _, ts, _ in hist_calls(case))
 
 
 def _hist_inplace(case):
-    seen = set()
-    for op in case['ops']:
-        if op[0] == 'set':
-            if op[1] in seen:
-                return True
-        else:
-            seen.add(op[2])
+    """some array object is used by a call, then gets new content in place (same object), then is used again"""
+    seen = {}
+    for c, ident, ts, _ in hist_calls(case):
+        if ident in seen and seen[ident] != ts:
+            return True
+        seen.setdefault(ident, ts)
     return False
 
 
 def py_spec(case, obs):
     if 'crash' in obs or 'hang' in obs:
         return None
+    if obs.get('mutated'):
+        return 'the sampler changed the content of the time array it was given'
     if case['kind'] == 'eq' and obs.get('built') and obs.get('eq') and obs.get('same') is False:
         return 'two waveforms compare equal but differ in channels / duration / constant_value / samples'
     if case['kind'] == 'hist':
         for i, (a, f) in enumerate(zip(obs['answers'], obs['fresh'])):
             if a != f:
                 return 'call %d of the history answers %r, a fresh waveform with a fresh array answers %r' % (i, a, f)
+        for i, q in enumerate(obs.get('queries', [])):
+            if not q:
+                return 'read-only query %d of the history is answered differently by the used object and by a fresh one' % i
     return None
 
 
